@@ -40,6 +40,109 @@ pub fn boundary_probe(rng: &mut Rng) -> String {
   format!("{}{}{}", lead, wide, tail)
 }
 
+
+pub const PLACEHOLDER: &str = "did:0:0";
+pub const ZERO_SMR_DID: &str = "did:iota:smr:0x0000000000000000000000000000000000000000000000000000000000000000";
+
+/// DIDs that occur in the identifiers of the members of `d` (first few distinct ones, document order).
+fn member_dids(d: &CoreDocument) -> Vec<CoreDID> {
+  let mut out: Vec<CoreDID> = Vec::new();
+  let ids = d.verification_method().iter().map(|m| m.id()).chain(d.verification_relationships().map(|r| r.id())).chain(d.service().iter().map(|s| s.id()));
+  for id in ids {
+    if !out.contains(id.did()) {
+      out.push(id.did().clone());
+      if out.len() >= 4 {
+        break;
+      }
+    }
+  }
+  out
+}
+
+fn exercise_mapped(d: &CoreDocument) -> usize {
+  d.to_string().len() + d.to_json().map(|j| j.len()).unwrap_or(0) + format!("{:?}", d).len() + d.methods(None).len() + d.service().len()
+}
+
+/// `CoreDocument::try_map` / `map_unchecked` with DID maps that are NOT injective: nothing in their contracts asks for an
+/// injective map, and the IOTA method itself uses such maps (placeholder -> DID of the output when unpacking, own DID ->
+/// placeholder when packing), so identifiers that differ only in their DID may coincide after mapping. Each map is applied
+/// through both functions; the outcome (value or error) goes through the serialisers.
+fn sweep_doc_maps(cx: &mut Cx, origin: &str, d: &CoreDocument) {
+  let placeholder = CoreDID::parse(PLACEHOLDER).expect("harness DID");
+  let constant = CoreDID::parse("did:example:mapped").expect("harness DID");
+  let own = d.id().clone();
+  // (name, from, to): `from == None` maps every DID to `to`
+  let mut maps: Vec<(String, Option<CoreDID>, CoreDID)> = vec![
+    ("all->constant".into(), None, constant),
+    ("all->own".into(), None, own.clone()),
+    ("placeholder->own".into(), Some(placeholder.clone()), own.clone()),
+    ("own->placeholder".into(), Some(own.clone()), placeholder.clone()),
+  ];
+  let dids = member_dids(d);
+  for a in &dids {
+    if *a != own && *a != placeholder {
+      maps.push(("member->own".into(), Some(a.clone()), own.clone()));
+      maps.push(("placeholder->member".into(), Some(placeholder.clone()), a.clone()));
+      maps.push(("own->member".into(), Some(own.clone()), a.clone()));
+    }
+  }
+  if dids.len() >= 2 {
+    maps.push(("member->member".into(), Some(dids[0].clone()), dids[1].clone()));
+    maps.push(("member->member".into(), Some(dids[1].clone()), dids[0].clone()));
+  }
+  maps.truncate(12);
+  for (name, from, to) in &maps {
+    cx.rep.inc("noninjective_maps");
+    let arg = format!("{} ({} -> {})", name, from.as_ref().map(|f| f.as_str()).unwrap_or("*"), to.as_str());
+    let i = In::C(origin, &arg);
+    let f = |x: CoreDID| -> CoreDID {
+      match from {
+        None => to.clone(),
+        Some(fr) if x == *fr => to.clone(),
+        _ => x,
+      }
+    };
+    // all four positions, then members only (id and controller kept)
+    cx.acc("CoreDocument.map_unchecked", i, || exercise_mapped(&d.clone().map_unchecked(f, f, f, f)));
+    cx.acc("CoreDocument.map_unchecked", i, || exercise_mapped(&d.clone().map_unchecked(|x| x, |x| x, f, f)));
+    cx.acc("CoreDocument.try_map", i, || {
+      let r: Result<CoreDocument, String> = d.clone().try_map(|x| Ok(f(x)), |x| Ok(f(x)), |x| Ok(f(x)), |x| Ok(f(x)), |e| e.to_string());
+      r.map(|m| exercise_mapped(&m)).map_err(|e| e.len())
+    });
+    cx.acc("CoreDocument.try_map", i, || {
+      let r: Result<CoreDocument, String> = d.clone().try_map(Ok, Ok, |x| Ok(f(x)), |x| Ok(f(x)), |e| e.to_string());
+      r.map(|m| exercise_mapped(&m)).map_err(|e| e.len())
+    });
+  }
+}
+
+/// IOTA DIDs literally mentioned in an input (the author of packed state metadata knows the DID of the output it is
+/// written into, so the document may well spell it out next to the placeholder).
+fn mentioned_iota_dids(text: &str) -> Vec<IotaDID> {
+  let mut out: Vec<IotaDID> = Vec::new();
+  let mut seen: Vec<&str> = Vec::new();
+  let mut rest = text;
+  let mut budget = 64;
+  while let Some(p) = rest.find("did:iota:") {
+    budget -= 1;
+    if budget == 0 || out.len() >= 3 {
+      break;
+    }
+    let tail = &rest[p..];
+    let end = tail.find(|c: char| !(c.is_ascii_alphanumeric() || c == ':' || c == '.' || c == '-' || c == '_')).unwrap_or(tail.len());
+    let cand = &tail[..end];
+    rest = &tail[end.max(1)..];
+    if seen.contains(&cand) {
+      continue;
+    }
+    seen.push(cand);
+    if let Ok(Ok(d)) = vh::panicmon::catch(|| IotaDID::parse(cand)) {
+      out.push(d);
+    }
+  }
+  out
+}
+
 pub fn sweep_method(cx: &mut Cx, origin: &str, m: &VerificationMethod) {
   let i = In::C(origin, "VerificationMethod");
   cx.acc("VerificationMethod.getters", i, || (m.id().to_string().len(), m.controller().as_str().len(), m.type_().to_string().len(), m.properties().len(), format!("{:?}", m.data()).len()));
@@ -185,6 +288,7 @@ pub fn sweep_doc(cx: &mut Cx, w: &World, rng: &mut Rng, origin: &str, d: &CoreDo
     let b: Result<CoreDocument, ()> = d.clone().try_map(|x| Ok(x), |x| Ok(x), |x| Ok(x), |_| Ok(id.clone()), |_| ());
     (a.to_string().len(), b.is_ok())
   });
+  sweep_doc_maps(cx, origin, d);
   for s in services.iter().take(2) {
     let q = s.id().to_string();
     cx.acc("CoreDocument.revoke_credentials", In::C(origin, &q), || {
@@ -223,6 +327,7 @@ pub fn sweep_iota_doc(cx: &mut Cx, w: &World, rng: &mut Rng, origin: &str, d: &I
     }
   }
   cx.acc("StateMetadataDocument.from_IotaDocument", i, || StateMetadataDocument::from(d.clone()).pack(StateMetadataEncoding::Json).map(|v| v.len()).ok());
+  cx.acc("IotaDocument.pack_with_encoding", i, || d.clone().pack_with_encoding(StateMetadataEncoding::Json).map(|v| v.len()).ok());
   cx.acc("IotaDocument.set_controller", i, || {
     let mut c = d.clone();
     let ids: Vec<IotaDID> = d.controller().cloned().collect();
@@ -236,10 +341,32 @@ pub fn sweep_iota_doc(cx: &mut Cx, w: &World, rng: &mut Rng, origin: &str, d: &I
 
 fn sweep_smd(cx: &mut Cx, origin: In, smd: StateMetadataDocument) {
   cx.acc("StateMetadataDocument.fmt", origin, || (format!("{:?}", smd).len(), smd.to_json().is_ok(), smd.clone() == smd));
-  for did in [ISSUER_DID, "did:iota:smr:0x0000000000000000000000000000000000000000000000000000000000000000"] {
-    let id = IotaDID::parse(did).expect("harness IotaDID");
+  let mut targets: Vec<IotaDID> = vec![IotaDID::parse(ISSUER_DID).expect("harness IotaDID"), IotaDID::parse(ZERO_SMR_DID).expect("harness IotaDID")];
+  let text: std::borrow::Cow<str> = match origin {
+    In::S(s) => std::borrow::Cow::Borrowed(s),
+    In::B(b) => String::from_utf8_lossy(b),
+    In::C(o, _) => std::borrow::Cow::Borrowed(o),
+  };
+  for m in mentioned_iota_dids(&text) {
+    if !targets.contains(&m) {
+      cx.rep.inc("smd_unpacked_for_mentioned_did");
+      targets.push(m);
+    }
+  }
+  for id in &targets {
     let c = smd.clone();
-    cx.acc("StateMetadataDocument.into_iota_document", origin, || c.into_iota_document(&id).map(|x| (x.to_string().len(), x.id().tag_str().len())).ok());
+    let arg = id.to_string();
+    let i = match origin {
+      In::S(s) => In::C(s, &arg),
+      other => other,
+    };
+    if let Some(Some(doc)) = cx.acc("StateMetadataDocument.into_iota_document", i, || c.into_iota_document(id).ok()) {
+      cx.rep.inc("smd_into_iota_document_ok");
+      // the unpacked document is an accepted value: serialisers and the way back
+      cx.acc("IotaDocument.fmt_after_unpack", i, || (doc.to_string().len(), doc.to_json().map(|j| IotaDocument::from_json(&j).is_ok()).is_ok(), doc.id().tag_str().len()));
+      cx.acc("IotaDocument.pack", i, || doc.clone().pack().map(|v| StateMetadataDocument::unpack(&v).is_ok()).ok());
+      cx.acc("StateMetadataDocument.from_IotaDocument", i, || StateMetadataDocument::from(doc.clone()).to_json().is_ok());
+    }
   }
   cx.acc("StateMetadataDocument.pack", origin, || smd.pack(StateMetadataEncoding::Json).map(|v| StateMetadataDocument::unpack(&v).is_ok()).ok());
 }
@@ -283,6 +410,116 @@ fn packed(version: u8, encoding: u8, len: Option<u16>, body: &[u8]) -> Vec<u8> {
   v.extend_from_slice(&len.unwrap_or(body.len().min(65535) as u16).to_le_bytes());
   v.extend_from_slice(body);
   v
+}
+
+
+const SET_PROPS: &[&str] = &["verificationMethod", "authentication", "assertionMethod", "keyAgreement", "capabilityDelegation", "capabilityInvocation", "service", "controller"];
+
+/// One member of the set `prop` identified by `did` + `suffix` (`#frag`, `?q#frag`, `/p#frag`); `embed` chooses between
+/// an embedded method and a reference where the property allows both.
+fn set_member(prop: &str, did: &str, suffix: &str, embed: bool, jwk: &str) -> String {
+  match prop {
+    "controller" => format!("\"{}\"", did),
+    "service" => format!(r#"{{"id":"{did}{suffix}","type":"LinkedDomains","serviceEndpoint":"https://example.com/"}}"#),
+    "verificationMethod" => format!(r#"{{"id":"{did}{suffix}","controller":"{did}","type":"JsonWebKey","publicKeyJwk":{jwk}}}"#),
+    _ if embed => format!(r#"{{"id":"{did}{suffix}","controller":"{did}","type":"JsonWebKey","publicKeyJwk":{jwk}}}"#),
+    _ => format!("\"{}{}\"", did, suffix),
+  }
+}
+
+/// Documents in which ONE set holds two (or three) members whose identifiers agree in everything but the spelling of the
+/// DID: placeholder, the DID the document will be unpacked for / is published under, another IOTA DID, a foreign method.
+/// Such a document is well formed (the identifiers are distinct), yet the members coincide once the placeholder is
+/// substituted (unpack) or the own DID is replaced by the placeholder (pack), or under any non-injective DID map.
+/// Returns (core document JSON, `{"doc":..,"meta":..}` JSON, packed state metadata).
+fn collision_documents(w: &World, stride: usize) -> Vec<(String, String, Vec<u8>)> {
+  let spellings: [&str; 5] = [PLACEHOLDER, ISSUER_DID, ZERO_SMR_DID, crate::world::HOLDER_DID, "did:example:123"];
+  let suffixes: [&str; 4] = ["#key-1", "#domain", "?versionId=1#key-1", "/path#k"];
+  let jwk = w.ed.public_jwk_json(None);
+  let mut out = Vec::new();
+  let mut n = 0usize;
+  for (di, doc_id) in [PLACEHOLDER, ISSUER_DID, ZERO_SMR_DID].iter().enumerate() {
+    for (pi, prop) in SET_PROPS.iter().enumerate() {
+      for (ai, first) in spellings.iter().enumerate() {
+        for (bi, second) in spellings.iter().enumerate() {
+          // equal spellings (a duplicate identifier inside the input itself) only once per property
+          if ai == bi && ai != di {
+            continue;
+          }
+          n += 1;
+          if n % stride != 0 {
+            continue;
+          }
+          let shape = (pi + ai + 2 * bi + di) % 4;
+          let suffix = suffixes[(pi + ai + bi) % suffixes.len()];
+          let mut members = vec![set_member(prop, first, suffix, shape & 1 == 1, &jwk), set_member(prop, second, suffix, shape & 2 == 2, &jwk)];
+          if (ai + bi + pi) % 5 == 0 {
+            // a third spelling, and a neighbour that stays distinct
+            members.push(set_member(prop, spellings[(bi + 1) % spellings.len()], suffix, shape == 0, &jwk));
+            members.insert(1, set_member(prop, second, "#other", false, &jwk));
+          }
+          // referenced methods exist in verificationMethod so that the relationship is not dangling in half of the cases
+          let extra = if *prop != "verificationMethod" && *prop != "service" && *prop != "controller" && (ai + bi) % 2 == 0 {
+            format!(r#","verificationMethod":[{}]"#, set_member("verificationMethod", first, suffix, true, &jwk))
+          } else {
+            String::new()
+          };
+          let core = format!(r#"{{"id":"{doc_id}","{prop}":[{}]{extra}}}"#, members.join(","));
+          let wrapped = format!(r#"{{"doc":{core},"meta":{{"created":"2022-01-01T00:00:00Z","updated":"2022-01-02T00:00:00Z"}}}}"#);
+          let bytes = packed(1, 0, None, wrapped.as_bytes());
+          out.push((core, wrapped, bytes));
+        }
+      }
+    }
+  }
+  out
+}
+
+/// Mutation step on a document value: one member of one of its sets is duplicated and the DID of the copy's identifier
+/// respelled (placeholder / the DIDs documents get unpacked for / the document's own id / a foreign DID).
+fn respell_member(rng: &mut Rng, v: &mut serde_json::Value) -> bool {
+  let doc = if v.get("doc").map(|d| d.is_object()).unwrap_or(false) { &mut v["doc"] } else { v };
+  let own = doc.get("id").and_then(|x| x.as_str()).unwrap_or(PLACEHOLDER).to_string();
+  let Some(obj) = doc.as_object_mut() else { return false };
+  let start = rng.usize(SET_PROPS.len());
+  for o in 0..SET_PROPS.len() {
+    let prop = SET_PROPS[(start + o) % SET_PROPS.len()];
+    let Some(arr) = obj.get_mut(prop).and_then(|x| x.as_array_mut()) else { continue };
+    if arr.is_empty() || arr.len() > 64 {
+      continue;
+    }
+    let mut copy = arr[rng.usize(arr.len())].clone();
+    let new_did = match rng.below(6) {
+      0 | 1 => PLACEHOLDER.to_string(),
+      2 => ISSUER_DID.to_string(),
+      3 => ZERO_SMR_DID.to_string(),
+      4 => own.clone(),
+      _ => crate::world::HOLDER_DID.to_string(),
+    };
+    let respell = |id: &str| -> String {
+      let cut = id.find(|c| c == '#' || c == '?' || c == '/').unwrap_or(id.len());
+      format!("{}{}", new_did, &id[cut..])
+    };
+    let keep_controller = rng.bool();
+    match &mut copy {
+      serde_json::Value::String(id) => *id = respell(id),
+      serde_json::Value::Object(m) => {
+        if let Some(serde_json::Value::String(id)) = m.get_mut("id") {
+          *id = respell(id);
+        }
+        if !keep_controller {
+          if let Some(serde_json::Value::String(c)) = m.get_mut("controller") {
+            *c = new_did.clone();
+          }
+        }
+      }
+      _ => continue,
+    }
+    let at = rng.usize(arr.len() + 1);
+    arr.insert(at, copy);
+    return true;
+  }
+  false
 }
 
 fn feed_packed(cx: &mut Cx, data: &[u8]) {
@@ -385,6 +622,20 @@ pub fn run(cx: &mut Cx, w: &World, rng: &mut Rng, budget: u64) {
     }
   }
 
+  // ---- one set, two spellings of the DID of one identifier (unpack / pack / non-injective maps make them coincide)
+  cx.gen("did-respelling");
+  let stride = if cx.scale >= 1000 { 1 } else { ((1000 / cx.scale.max(1)) as usize).clamp(2, 24) };
+  for (core, wrapped, bytes) in collision_documents(w, stride) {
+    k += 1;
+    if !cx.args.mine(k) {
+      continue;
+    }
+    cx.rep.inc("respelled_documents");
+    feed_json(cx, w, rng, &core, false);
+    feed_json(cx, w, rng, &wrapped, false);
+    feed_packed(cx, &bytes);
+  }
+
   // ---- mutation
   cx.gen("mutation");
   let mut idxs = w.seeds.of(Kind::CoreDoc);
@@ -405,7 +656,26 @@ pub fn run(cx: &mut Cx, w: &World, rng: &mut Rng, budget: u64) {
       (t.clone(), Some(v.clone()))
     };
     let other = gen::any_token(rng);
-    let j = gen::mutate_json_text(rng, &seed_text, seed_val.as_ref(), other);
+    let mut seed_text = seed_text;
+    let mut seed_val = seed_val;
+    let mut respelled = false;
+    if n % 5 == 2 {
+      // a member duplicated under another spelling of its DID, as such or as the base of a further mutation
+      if let Some(v) = seed_val.as_mut() {
+        if respell_member(rng, v) {
+          respelled = true;
+          cx.rep.inc("respelled_mutants");
+          seed_text = serde_json::to_string(v).unwrap_or(seed_text);
+        }
+      }
+    }
+    let j = if respelled && rng.bool() { seed_text.clone() } else { gen::mutate_json_text(rng, &seed_text, seed_val.as_ref(), other) };
+    if respelled && rng.bool() {
+      // the same document as the other container: bare core document <-> {"doc","meta"} <-> packed
+      let wrapped = if j.contains("\"doc\"") { j.clone() } else { format!(r#"{{"doc":{},"meta":{{}}}}"#, j) };
+      feed_json(cx, w, rng, &wrapped, false);
+      feed_packed(cx, &packed(1, 0, None, wrapped.as_bytes()));
+    }
     if n % 4 == 3 {
       // as packed state metadata, with a possibly lying header
       let body = if rng.bool() { j.clone().into_bytes() } else { gen::mutate_bytes(rng, small.as_bytes(), j.as_bytes()) };
